@@ -33,6 +33,11 @@ reports a broken C16_gen_* obligation -- only C16 depends on the output, so only
    (ints: != 0; None: false; weekday objects: always true -- checked: class weekday defines no
    __bool__/__len__), value-returning `a or b` (int, or int-or-None with an int), `a if c else b`,
    tuples.
+Second reading (gen_fix_q): the same source of _fix with day/hour/minute/second/microsecond values that
+ are exact rationals n / D (floats idealised): such a value is its numerator n (type `scaled`), an int k
+ meeting it is k * D, `v > c` is `c * D < n`, divmod(v, c) = (n / (c*D), n mod (c*D)), _sign(v) = sign of n;
+ gen_normalized_q reads normalized() the same way: int(v) = Z.quot n D, round(v, k) = v (IDEALISED: exact
+ only where the value has at most k decimals), round(v) = nearest integer, ties to even.
 Semantics: Python ints are Coq Z; divmod/ // / % are Z.div / Z.modulo (floor, sign of divisor).
 """
 import ast
@@ -46,7 +51,9 @@ class TranslateError(Exception):
 
 # ---------------------------------------------------------------- types
 INT, BOOL, NONE, WD = "int", "bool", "none", "wd"
-RAT, WDARG = "rat", "wdarg"      # an exact rational argument (float / Fraction); the weekday= argument
+RAT, WDARG = "rat", "wdarg"
+SC = "scaled"      # rational reading of a float-valued field: the numerator over the common denominator v_D
+SC_FIELDS = ("days", "hours", "minutes", "seconds", "microseconds")      # an exact rational argument (float / Fraction); the weekday= argument
 
 
 def OPT(t):
@@ -122,12 +129,13 @@ class Ctx:
         self.ntmp = 0
         self.ok, self.bind = "GOk", "gbind"     # result type: gres (AttributeError) or res (ValueError/IndexError)
         self.relaxed_int = False      # int(x) on an int-or-None x (only inside the no-effect warn guard)
+        self.scaled = False           # rational reading: day..microsecond fields are numerators over v_D
 
     def copy(self):
         c = Ctx(self.objs, self.types, self.methods)
         c.hoisted = self.hoisted
         c.ntmp = self.ntmp
-        c.ok, c.bind, c.relaxed_int = self.ok, self.bind, self.relaxed_int
+        c.ok, c.bind, c.relaxed_int, c.scaled = self.ok, self.bind, self.relaxed_int, self.scaled
         return c
 
 
@@ -245,7 +253,8 @@ def val(e, cx):
         if kind == "rd":
             if e.attr not in RD_FIELDS:
                 raise TranslateError("unknown relativedelta attribute %s" % e.attr)
-            return "(%s v_%s)" % (coqf(e.attr), e.value.id), RD_FIELDS[e.attr]
+            ft = SC if (cx.scaled and e.attr in SC_FIELDS) else RD_FIELDS[e.attr]
+            return "(%s v_%s)" % (coqf(e.attr), e.value.id), ft
         if kind == "td":
             if e.attr not in ("days", "seconds", "microseconds"):
                 raise TranslateError("unknown timedelta attribute %s" % e.attr)
@@ -255,15 +264,21 @@ def val(e, cx):
         return "(%s v_%s)" % ("fst" if e.attr == "weekday" else "snd", e.value.id), WD_FIELDS[e.attr]
     if isinstance(e, ast.BinOp) and type(e.op) in (ast.Add, ast.Sub, ast.Mult):
         (a, ta), (b, tb) = val(e.left, cx), val(e.right, cx)
+        op = {ast.Add: "+", ast.Sub: "-", ast.Mult: "*"}[type(e.op)]
+        if SC in (ta, tb) and {ta, tb} <= {SC, INT}:
+            if isinstance(e.op, ast.Mult):
+                if ta == SC and tb == SC:
+                    raise TranslateError("product of two float-valued quantities")
+                return "(%s * %s)" % (a, b), SC                  # (n/D) * k = (n*k)/D
+            return "(%s %s %s)" % (to_sc(a, ta), op, to_sc(b, tb)), SC
         if ta != INT or tb != INT:
             raise TranslateError("arithmetic on non-int")
-        op = {ast.Add: "+", ast.Sub: "-", ast.Mult: "*"}[type(e.op)]
         return "(%s %s %s)" % (a, op, b), INT
     if isinstance(e, ast.UnaryOp) and isinstance(e.op, ast.USub):
         a, ta = val(e.operand, cx)
-        if ta != INT:
+        if ta not in (INT, SC):
             raise TranslateError("negation of non-int")
-        return "(- %s)" % a, INT
+        return "(- %s)" % a, ta
     if isinstance(e, ast.UnaryOp) and isinstance(e.op, ast.Not):
         return cond(e, cx), BOOL
     if isinstance(e, ast.Compare):
@@ -292,16 +307,24 @@ def val(e, cx):
     if (isinstance(e, ast.Call) and isinstance(e.func, ast.Name) and e.func.id == "round" and not e.keywords
             and len(e.args) in (1, 2)):
         a, ta = val(e.args[0], cx)
+        if ta == SC and len(e.args) == 1:
+            return "(round_half_even %s v_D)" % a, INT        # round(n/D): nearest integer, ties to even
+        if ta == SC and isinstance(e.args[1], ast.Constant) and isinstance(e.args[1].value, int):
+            return a, SC       # round(x, k) to k decimals: IDEALISED as the identity (see RdAlgQModel.v)
         if ta == INT and (len(e.args) == 1 or (isinstance(e.args[1], ast.Constant) and isinstance(e.args[1].value, int)
                                                  and not isinstance(e.args[1].value, bool) and e.args[1].value >= 0)):
             return a, INT                     # round(i) and round(i, k >= 0) of an integer are that integer
         raise TranslateError("unsupported round(...)")
     if isinstance(e, ast.Call) and isinstance(e.func, ast.Name) and not e.keywords and len(e.args) == 1:
         a, ta = val(e.args[0], cx)
-        if e.func.id == "abs" and ta == INT:
-            return "(Z.abs %s)" % a, INT
+        if e.func.id == "abs" and ta in (INT, SC):
+            return "(Z.abs %s)" % a, ta
+        if e.func.id == "_sign" and ta == SC and "gen_sign" in cx.methods:
+            return "(gen_sign %s)" % a, INT          # the sign of n/D (D > 0) is the sign of n
         if e.func.id in ("int", "float") and ta == INT:
             return a, INT
+        if e.func.id == "int" and ta == SC:
+            return "(Z.quot %s v_D)" % a, INT               # int() truncates toward zero
         if e.func.id == "int" and ta == RAT:
             return "(rat_int %s)" % a, INT
         if e.func.id == "int" and ta == OPT(INT) and cx.relaxed_int:
@@ -311,10 +334,15 @@ def val(e, cx):
     raise TranslateError("unsupported expression: " + ast.dump(e)[:160])
 
 
+def to_sc(term, t):
+    """an integer as a numerator over v_D"""
+    return term if t == SC else "(%s * v_D)" % term
+
+
 def truth(term, t):
     if t == BOOL:
         return term
-    if t == INT:
+    if t in (INT, SC):
         return "(truth_z %s)" % term
     if t == OPT(INT):
         return "(truth_oz %s)" % term
@@ -350,6 +378,8 @@ def cond(e, cx):
                     raise TranslateError("== on types %r, %r" % (ta, tb))
                 parts.append(p if isinstance(op, ast.Eq) else "(negb %s)" % p)
             elif type(op) in CMP:
+                if SC in (ta, tb) and {ta, tb} <= {SC, INT}:
+                    a, b, ta, tb = to_sc(a, ta), to_sc(b, tb), INT, INT
                 if ta != INT or tb != INT:
                     raise TranslateError("ordering comparison on non-int")
                 sym, flip = CMP[type(op)]
@@ -455,7 +485,7 @@ def ret_expr(e, cx):
             and isinstance(e.func.value, ast.Name) and e.func.value.id == "self" and cx.objs.get("self") == "rd"):
         if e.args or any(k.arg is None for k in e.keywords):
             raise TranslateError("constructor call with positional / ** arguments")
-        if "gen_init" not in cx.methods:
+        if ("gen_init_q" if cx.scaled else "gen_init") not in cx.methods:
             raise TranslateError("constructor call but gen_init (_fix + the shape of __init__) is not available")
         kws = {}
         for k in e.keywords:
@@ -467,12 +497,17 @@ def ret_expr(e, cx):
         for f in OBJ_ORDER:
             if f == "_has_time":
                 args.append("0")
+            elif f in kws and cx.scaled and f in SC_FIELDS:
+                a, t = val(kws[f], cx)
+                if t not in (INT, SC):
+                    raise TranslateError("constructor keyword %s is not a number" % f)
+                args.append(to_sc(a, t))
             elif f in kws:
                 a, t = val(kws[f], cx)
                 args.append(coerce(a, t, RD_FIELDS[f]))
             else:
                 args.append("0" if RD_FIELDS[f] == INT else "None")
-        return pre, "gen_init (mkobj %s)" % " ".join(args), suf, "obj"
+        return pre, "%s (mkobj %s)" % ("gen_init_q v_D" if cx.scaled else "gen_init", " ".join(args)), suf, "obj"
     # self.__class__(weekday, n) inside class weekday
     if (isinstance(e, ast.Call) and isinstance(e.func, ast.Attribute) and e.func.attr == "__class__"
             and isinstance(e.func.value, ast.Name) and e.func.value.id == "self" and cx.objs.get("self") == "wdobj"):
@@ -540,12 +575,16 @@ def block(stmts, cx, k, m, ind=1):
                 raise TranslateError("unsupported divmod form")
             pre, suf = with_hoists([c.args[0]], cx, None)
             a, ta = val(c.args[0], cx)
-            if ta != INT:
+            if ta not in (INT, SC):
                 raise TranslateError("divmod of non-int")
             d = lit(c.args[1].value)
+            if ta == SC:
+                if c.args[1].value < 0:
+                    raise TranslateError("divmod of a float-valued quantity by a negative literal")
+                d = "(%s * v_D)" % d       # divmod(n/D, c) = (floor(n / (c*D)), (n mod (c*D)) / D)
             c2 = cx.copy()
             c2.types[tgt.elts[0].id] = INT
-            c2.types[tgt.elts[1].id] = INT
+            c2.types[tgt.elts[1].id] = ta
             return (pad + pre + pad + "let '(v_%s, v_%s) := ((%s / %s), (%s mod %s)) in\n"
                     % (tgt.elts[0].id, tgt.elts[1].id, a, d, a, d) + nxt(c2) + suf)
         # a, b = e1, e2
@@ -573,6 +612,12 @@ def block(stmts, cx, k, m, ind=1):
         pre, suf = with_hoists([s.value], cx, None)
         a, t = val(s.value, cx)
         cur, tc = val(s.target, cx)
+        if tc == SC and t in (INT, SC):
+            a, t = to_sc(a, t), SC
+            new = "(%s %s %s)" % (cur, "+" if isinstance(s.op, ast.Add) else "-", a)
+            if isinstance(s.target, ast.Name):
+                raise TranslateError("augmented assignment on a float-valued local")
+            return pad + pre + pad + field_set(s.target, new, SC, cx) + nxt(cx) + suf
         if t != INT or tc != INT:
             raise TranslateError("augmented assignment on non-int")
         new = "(%s %s %s)" % (cur, "+" if isinstance(s.op, ast.Add) else "-", a)
@@ -651,6 +696,12 @@ def field_set(tgt, term, t, cx):
     if tgt.attr not in RD_FIELDS:
         raise TranslateError("assignment to attribute %s is not supported" % tgt.attr)
     ft = RD_FIELDS[tgt.attr]
+    if cx.scaled and tgt.attr in SC_FIELDS:
+        if t not in (INT, SC):
+            raise TranslateError("assignment of a non-number to a float-valued field")
+        return "let v_self := set_%s v_self %s in\n" % (coqf(tgt.attr), to_sc(term, t))
+    if t == SC:
+        raise TranslateError("float-valued quantity stored in an integer field")
     return "let v_self := %s_%s v_self %s in\n" % ("set" if ft == INT else "put", coqf(tgt.attr), coerce(term, t, ft))
 
 
@@ -689,11 +740,12 @@ def find_def(body, name):
     return f
 
 
-def do_method(fn, params, objs, types, methods, kind, coqname, coqparams, rettype):
+def do_method(fn, params, objs, types, methods, kind, coqname, coqparams, rettype, scaled=False):
     """kind: 'mutator' (returns the state) or 'function'"""
     if [a.arg for a in fn.args.args] != params:
         raise TranslateError("unexpected parameters %r" % [a.arg for a in fn.args.args])
     cx = Ctx(objs, types, methods)
+    cx.scaled = scaled
     m = Method()
     if kind == "mutator":
         if contains_return(fn.body):
@@ -750,7 +802,7 @@ def translate(rd_src, common_src):
     out = ["(* GENERATED by harness/gen_rd_methods.py from /repo/src/dateutil/relativedelta.py and _common.py"
            " -- do not edit *)",
            "From Coq Require Import ZArith Bool.",
-           "From V Require Import base.Cal rd.RdBase rd.RdModel rd.RdGenBase.",
+           "From V Require Import base.Cal rd.RdBase rd.RdModel rd.RdAlgQModel rd.RdGenBase.",
            "Open Scope Z_scope.", ""]
     errors = []
     methods = set()
@@ -804,6 +856,13 @@ def translate(rd_src, common_src):
                       "objects, no weeks, yearday, dt1, dt2): assign the fields, then _fix *)\n"
                       "Definition gen_init (args : obj) : gres obj := gen_fix args.\n")
     attempt("gen_init", fix)
+    # the SAME source of _fix read on float-valued day/hour/minute/second/microsecond fields, idealised as
+    # exact rationals numerator / v_D (months, years stay integers)
+    attempt("gen_fix_q", lambda: do_method(find_def(rd.body, "_fix"), ["self"], {"self": "rd"}, {}, methods,
+            "mutator", "gen_fix_q", "(v_D : Z) (v_self : obj)", ("obj", "obj"), scaled=True)
+            + "Definition gen_init_q (v_D : Z) (args : obj) : gres obj := gen_fix_q v_D args.\n")
+    if "gen_fix_q" in methods and "gen_init" in methods:
+        methods.add("gen_init_q")
     # the keyword path of __init__ up to (excluding) `yday = 0`: non-integer check, field assignments with
     # weeks, weekday argument forms.  (The yearday conversion that follows is translated by
     # harness/gen_rd_add.py -> gen_init_yearday; coq/rd/RdGenInitThm.v composes the three parts.)
@@ -887,6 +946,8 @@ def translate(rd_src, common_src):
             {"self": "rd", "other": "rd"}, {}, methods, "function", "gen_sub", SO, ("obj", "obj")))
     attempt("gen_normalized", lambda: do_method(find_def(rd.body, "normalized"), ["self"], {"self": "rd"}, {},
             methods, "function", "gen_normalized", S, ("obj", "obj")))
+    attempt("gen_normalized_q", lambda: do_method(find_def(rd.body, "normalized"), ["self"], {"self": "rd"}, {},
+            methods, "function", "gen_normalized_q", "(v_D : Z) (v_self : obj)", ("obj", "obj"), scaled=True))
     attempt("gen_mul", lambda: do_method(find_def(rd.body, "__mul__"), ["self", "other"], {"self": "rd"},
             {"other": INT}, methods, "function", "gen_mul", "(v_self : obj) (v_other : Z)", ("obj", "obj")))
 
